@@ -40,30 +40,32 @@ Definition store_upd {N V} `{EqDecision N, EqDecision V}
     (st : store N V) (x : N) (iv : list V) (v : V) : store N V :=
   fun y jv => if decide (y = x /\ jv = iv) then v else st y jv.
 
-(* [bop]: the meaning of the operators, [num]: the meaning of literals; both
-   arbitrary (in particular no operator is assumed commutative) *)
-Fixpoint eval {N V} (bop : binop -> V -> V -> V) (num : nat -> V) (st : store N V) (e : ex N) : V :=
+(* [bop]: the meaning of the operators, [num]: the meaning of literals, [fld]: the element of
+   an index vector a component access `.name` stands for; all arbitrary (in particular no
+   operator is assumed commutative) *)
+Fixpoint eval {N V} (bop : binop -> V -> V -> V) (num : nat -> V) (fld : N -> V) (st : store N V) (e : ex N) : V :=
   match e with
   | ENum n => num n
-  | EVar x access => st x (map (eval bop num st) access)
-  | EInfix op l r => bop op (eval bop num st l) (eval bop num st r)
+  | EVar x access => st x (map (eval bop num fld st) access)
+  | EInfix op l r => bop op (eval bop num fld st l) (eval bop num fld st r)
+  | EField f => fld f
   end.
 
 (* the meaning of the four surface forms, each given directly *)
 Definition exec_stmt {N V} `{EqDecision N, EqDecision V}
-    (bop : binop -> V -> V -> V) (num : nat -> V) (s : cstmt N) (st : store N V) : store N V :=
+    (bop : binop -> V -> V -> V) (num : nat -> V) (fld : N -> V) (s : cstmt N) (st : store N V) : store N V :=
   match s with
   | CAssign x access e =>
-      store_upd st x (map (eval bop num st) access) (eval bop num st e)
+      store_upd st x (map (eval bop num fld st) access) (eval bop num fld st e)
   | COpAssign op x access e =>
-      let iv := map (eval bop num st) access in
+      let iv := map (eval bop num fld st) access in
       let old := st x iv in
-      store_upd st x iv (bop op old (eval bop num st e))
+      store_upd st x iv (bop op old (eval bop num fld st e))
   | CInc x access =>
-      let iv := map (eval bop num st) access in
+      let iv := map (eval bop num fld st) access in
       store_upd st x iv (bop Add (st x iv) (num 1))
   | CDec x access =>
-      let iv := map (eval bop num st) access in
+      let iv := map (eval bop num fld st) access in
       store_upd st x iv (bop Sub (st x iv) (num 1))
   end.
 
